@@ -821,6 +821,8 @@ func (in *Interp) opaqueMethod(recv *Iface, m *types.Func, args []Value) Value {
 func (in *Interp) run(fr *frame) Value {
 	fn := fr.fn
 	in.curFn = fn
+	startSteps := in.Steps
+	defer func() { in.FnSteps[fn] += in.Steps - startSteps }()
 	if len(fn.Blocks) == 0 {
 		in.end("internal", "no body: %s", fn)
 	}
